@@ -1,5 +1,479 @@
-//! stream `join` (stub; replaced by its builder)
-pub fn generate(_seed: u64, _cases: usize, _out: &mut Vec<String>) {}
-pub fn run(_toks: &[&str]) -> String {
-    "bad-op".to_string()
+//! Stream `join` — C08, the join operators of grafeo-core
+//! (`HashJoinOperator`, `NestedLoopJoinOperator` + `EqualityCondition`, `HashKey`) over mock
+//! children with arbitrary chunking, and the same joins through query text.
+//!
+//! Op lines (one output line each):
+//!
+//!   join hash   <jt> <lcols> <rcols> <pkeys> <bkeys> <lsizes> <rsizes> <ltable> <rtable>
+//!                 the rows of the hash join as a sorted bag (compared with the relational spec)
+//!   join hash.c …same…      the output chunk by chunk, rows in emission order
+//!   join nl     <jt> <lcols> <rcols> <cond> <lsizes> <rsizes> <ltable> <rtable>   (sorted bag)
+//!   join nl.c   …same…
+//!   join key    <tok> <tok>   HashKey equal? ; derived `==` ; the filter's `=` (1 / 0 / n)
+//!   join q      <lang> <form> <ltable> <rtable>   the equi-join through query text (sorted bag)
+//!
+//!   <jt>     = inner | left | right | full | cross | semi | anti
+//!   <keys>   = column indices joined by `,` | -
+//!   <cond>   = x (no condition) | e<lc>.<rc> (EqualityCondition)
+//!   <sizes>  = c:<n1>,<n2>,…  child chunk sizes (the rest of the rows forms one more chunk)
+//!   <table>  = seg;seg;… | -      seg = row | row*<n> ; row = cells joined by `,` ;
+//!              cell = value token | `#` (the row's position in the table as an Int64)
+use crate::util::*;
+use crate::vals::{tok, untok};
+use grafeo_common::types::{LogicalType, Value};
+use grafeo_core::execution::DataChunk;
+use grafeo_core::execution::ValueVector;
+use grafeo_core::execution::operators as ops;
+use grafeo_core::execution::operators::{Operator, OperatorResult};
+
+type Row = Vec<Value>;
+
+struct Mock {
+    chunks: Vec<Option<DataChunk>>,
+    pos: usize,
 }
+
+impl Operator for Mock {
+    fn next(&mut self) -> OperatorResult {
+        if self.pos < self.chunks.len() {
+            let c = self.chunks[self.pos].take();
+            self.pos += 1;
+            Ok(c)
+        } else {
+            Ok(None)
+        }
+    }
+    fn reset(&mut self) {
+        self.pos = 0;
+    }
+    fn name(&self) -> &'static str {
+        "Mock"
+    }
+}
+
+fn valid_tok(t: &str) -> bool {
+    if t.is_empty() || !t.is_char_boundary(1) {
+        return false;
+    }
+    let (k, rest) = t.split_at(1);
+    match k {
+        "N" => rest.is_empty(),
+        "B" => rest == "0" || rest == "1",
+        "I" => rest.parse::<i64>().is_ok(),
+        "F" => rest.len() == 16 && u64::from_str_radix(rest, 16).is_ok(),
+        "S" => unhex(if rest.is_empty() { "-" } else { rest }).map_or(false, |b| String::from_utf8(b).is_ok()),
+        _ => false,
+    }
+}
+
+fn parse_table(s: &str, ncols: usize) -> Option<Vec<Row>> {
+    let mut out: Vec<Row> = Vec::new();
+    if s == "-" {
+        return Some(out);
+    }
+    for seg in s.split(';') {
+        let (row_s, n) = match seg.split_once('*') {
+            Some((r, n)) => (r, n.parse::<usize>().ok()?),
+            None => (seg, 1),
+        };
+        let cells: Vec<&str> = row_s.split(',').collect();
+        if cells.len() != ncols || n > 100_000 {
+            return None;
+        }
+        for _ in 0..n {
+            let mut row = Vec::new();
+            for c in &cells {
+                if *c == "#" {
+                    row.push(Value::Int64(out.len() as i64));
+                } else if valid_tok(c) {
+                    row.push(untok(c));
+                } else {
+                    return None;
+                }
+            }
+            out.push(row);
+        }
+    }
+    Some(out)
+}
+
+fn parse_sizes(s: &str) -> Option<Vec<usize>> {
+    let s = s.strip_prefix("c:")?;
+    if s.is_empty() {
+        return Some(vec![]);
+    }
+    s.split(',').map(|x| x.parse().ok()).collect()
+}
+
+fn parse_keys(s: &str) -> Option<Vec<usize>> {
+    if s == "-" {
+        return Some(vec![]);
+    }
+    s.split(',').map(|x| x.parse().ok()).collect()
+}
+
+fn parse_jt(s: &str) -> Option<ops::JoinType> {
+    use ops::JoinType::*;
+    Some(match s {
+        "inner" => Inner,
+        "left" => Left,
+        "right" => Right,
+        "full" => Full,
+        "cross" => Cross,
+        "semi" => Semi,
+        "anti" => Anti,
+        _ => return None,
+    })
+}
+
+fn build_chunk(rows: &[Row], ncols: usize) -> DataChunk {
+    let cols: Vec<ValueVector> = (0..ncols)
+        .map(|c| {
+            let vals: Vec<Value> = rows.iter().map(|r| r[c].clone()).collect();
+            ValueVector::from_values(&vals)
+        })
+        .collect();
+    DataChunk::new(cols)
+}
+
+fn mock(rows: &[Row], sizes: &[usize], ncols: usize) -> Box<dyn Operator> {
+    let mut out = Vec::new();
+    let mut pos = 0;
+    for &n in sizes {
+        let end = (pos + n).min(rows.len());
+        out.push(Some(build_chunk(&rows[pos..end], ncols)));
+        pos = end;
+    }
+    if pos < rows.len() {
+        out.push(Some(build_chunk(&rows[pos..], ncols)));
+    }
+    Box::new(Mock { chunks: out, pos: 0 })
+}
+
+/// the cells a consumer can read (`get_value` is `None` past the end of a short column)
+fn chunk_rows(c: &DataChunk) -> Vec<Row> {
+    c.selected_indices().map(|i| (0..c.column_count()).filter_map(|k| c.column(k).and_then(|col| col.get_value(i))).collect()).collect()
+}
+
+fn drain(mut op: Box<dyn Operator>) -> Result<Vec<Vec<Row>>, String> {
+    let mut out = Vec::new();
+    let mut guard = 0;
+    loop {
+        match op.next() {
+            Ok(Some(c)) => out.push(chunk_rows(&c)),
+            Ok(None) => break,
+            Err(_) => return Err("err".into()),
+        }
+        guard += 1;
+        if guard > 100_000 {
+            return Err("hang".into());
+        }
+    }
+    Ok(out)
+}
+
+fn show_row(r: &Row) -> String {
+    if r.is_empty() { "()".to_string() } else { r.iter().map(tok).collect::<Vec<_>>().join(",") }
+}
+
+fn show_chunks(cs: &[Vec<Row>]) -> String {
+    if cs.is_empty() {
+        return "-".into();
+    }
+    cs.iter()
+        .map(|c| if c.is_empty() { "_".to_string() } else { c.iter().map(show_row).collect::<Vec<_>>().join(";") })
+        .collect::<Vec<_>>()
+        .join("|")
+}
+
+fn show_bag(cs: &[Vec<Row>]) -> String {
+    let mut v: Vec<String> = cs.iter().flatten().map(show_row).collect();
+    if v.is_empty() {
+        return "-".into();
+    }
+    v.sort();
+    v.join(";")
+}
+
+fn run_hash(chunked: bool, a: &[&str]) -> Option<String> {
+    let jt = parse_jt(a[0])?;
+    let lcols: usize = a[1].parse().ok()?;
+    let rcols: usize = a[2].parse().ok()?;
+    if lcols == 0 || rcols == 0 || lcols > 8 || rcols > 8 {
+        return None;
+    }
+    let pk = parse_keys(a[3])?;
+    let bk = parse_keys(a[4])?;
+    if pk.len() != bk.len() {
+        return None;
+    }
+    let ls = parse_sizes(a[5])?;
+    let rs = parse_sizes(a[6])?;
+    let lt = parse_table(a[7], lcols)?;
+    let rt = parse_table(a[8], rcols)?;
+    let width = if matches!(jt, ops::JoinType::Semi | ops::JoinType::Anti) { lcols } else { lcols + rcols };
+    let op = ops::HashJoinOperator::new(mock(&lt, &ls, lcols), mock(&rt, &rs, rcols), pk, bk, jt, vec![LogicalType::Any; width]);
+    Some(match drain(Box::new(op)) {
+        Ok(cs) => if chunked { show_chunks(&cs) } else { show_bag(&cs) },
+        Err(e) => e,
+    })
+}
+
+fn run_nl(chunked: bool, a: &[&str]) -> Option<String> {
+    let jt = parse_jt(a[0])?;
+    let lcols: usize = a[1].parse().ok()?;
+    let rcols: usize = a[2].parse().ok()?;
+    if lcols == 0 || rcols == 0 || lcols > 8 || rcols > 8 {
+        return None;
+    }
+    let cond: Option<Box<dyn ops::JoinCondition>> = if a[3] == "x" {
+        None
+    } else {
+        let (l, r) = a[3].strip_prefix('e')?.split_once('.')?;
+        Some(Box::new(ops::EqualityCondition::new(l.parse().ok()?, r.parse().ok()?)))
+    };
+    let ls = parse_sizes(a[4])?;
+    let rs = parse_sizes(a[5])?;
+    let lt = parse_table(a[6], lcols)?;
+    let rt = parse_table(a[7], rcols)?;
+    let op = ops::NestedLoopJoinOperator::new(mock(&lt, &ls, lcols), mock(&rt, &rs, rcols), cond, jt, vec![LogicalType::Any; lcols + rcols]);
+    Some(match drain(Box::new(op)) {
+        Ok(cs) => if chunked { show_chunks(&cs) } else { show_bag(&cs) },
+        Err(e) => e,
+    })
+}
+
+fn run_key(a: &str, b: &str) -> Option<String> {
+    if !valid_tok(a) || !valid_tok(b) {
+        return None;
+    }
+    let (x, y) = (untok(a), untok(b));
+    let hk = ops::HashKey::from_value(&x) == ops::HashKey::from_value(&y);
+    let de = x == y;
+    // the filter's `=` on two literals
+    use ops::FilterExpression as E;
+    let e = E::Binary { left: Box::new(E::Literal(x)), op: ops::BinaryFilterOp::Eq, right: Box::new(E::Literal(y)) };
+    let store = std::sync::Arc::new(grafeo_core::graph::lpg::LpgStore::new());
+    let pred = ops::ExpressionPredicate::new(e, std::collections::HashMap::new(), store);
+    let chunk = build_chunk(&[vec![Value::Int64(0)]], 1);
+    let fe = pred.eval_at(&chunk, 0);
+    let f = match fe {
+        Some(Value::Bool(true)) => "1".to_string(),
+        Some(Value::Bool(false)) => "0".to_string(),
+        Some(Value::Null) | None => "n".to_string(),
+        Some(o) => tok(&o),
+    };
+    Some(format!("{};{};{}", hk as u8, de as u8, f))
+}
+
+pub fn run(toks: &[&str]) -> String {
+    let a: Vec<String> = toks.iter().map(|s| s.to_string()).collect();
+    guarded(move || {
+        let t: Vec<&str> = a.iter().map(|s| s.as_str()).collect();
+        let r = match t.as_slice() {
+            ["hash", rest @ ..] if rest.len() == 9 => run_hash(false, rest),
+            ["hash.c", rest @ ..] if rest.len() == 9 => run_hash(true, rest),
+            ["nl", rest @ ..] if rest.len() == 8 => run_nl(false, rest),
+            ["nl.c", rest @ ..] if rest.len() == 8 => run_nl(true, rest),
+            ["key", x, y] => run_key(x, y),
+            _ => None,
+        };
+        r.unwrap_or_else(|| "bad-op".to_string())
+    })
+}
+
+// ---------------------------------------------------------------------------------------------
+// generator
+// ---------------------------------------------------------------------------------------------
+
+const JTS: [&str; 7] = ["inner", "left", "right", "full", "cross", "semi", "anti"];
+
+fn fbits(f: f64) -> String {
+    format!("F{:016x}", f.to_bits())
+}
+
+fn key_pool() -> Vec<String> {
+    vec![
+        "N".into(),
+        "I0".into(),
+        "I1".into(),
+        "I2".into(),
+        "I-1".into(),
+        fbits(1.0),
+        fbits(0.0),
+        fbits(-0.0),
+        fbits(f64::NAN),
+        "F0000000000000001".into(), // the double whose bit pattern is 1
+        "I4607182418800017408".into(), // the integer whose value is the bit pattern of 1.0
+        "B1".into(),
+        "B0".into(),
+        "S61".into(),
+        "S".into(),
+        "S31".into(),
+    ]
+}
+
+fn gen_table(rng: &mut Rng, nkeys: usize, profile: u64) -> (String, usize) {
+    let pool = key_pool();
+    let nrows = match profile {
+        0 => 0,
+        1 => rng.range(1, 3),
+        2 => rng.range(2, 9),
+        _ => rng.range(0, 6),
+    } as usize;
+    // a small key domain per table so that duplicates and matches are frequent
+    let dom: Vec<String> = (0..rng.range(1, 4)).map(|_| if rng.chance(1, 2) { pool[rng.range(0, 4) as usize].clone() } else { rng.pick(&pool).clone() }).collect();
+    let mut segs = Vec::new();
+    let mut total = 0usize;
+    for _ in 0..nrows {
+        let mut cells: Vec<String> = (0..nkeys).map(|_| rng.pick(&dom).clone()).collect();
+        cells.push("#".into());
+        let n = if rng.chance(1, 6) { rng.range(2, 4) as usize } else { 1 };
+        total += n;
+        segs.push(if n > 1 { format!("{}*{}", cells.join(","), n) } else { cells.join(",") });
+    }
+    (if segs.is_empty() { "-".into() } else { segs.join(";") }, total)
+}
+
+fn gen_sizes(rng: &mut Rng, total: usize) -> String {
+    let mut v = Vec::new();
+    match rng.below(5) {
+        0 => {}
+        1 => {
+            for _ in 0..total {
+                v.push(1);
+            }
+        }
+        _ => {
+            let mut left = total as u64 + 1;
+            while left > 0 && v.len() < 6 {
+                let n = rng.range(0, 3.min(left));
+                v.push(n);
+                left = left.saturating_sub(n.max(1));
+            }
+        }
+    }
+    format!("c:{}", join(&v))
+}
+
+fn big_sizes(rng: &mut Rng) -> String {
+    (*rng.pick(&["c:", "c:2048", "c:2047", "c:2049", "c:1,2047", "c:0,2048,0", "c:1000,1000", "c:2047,2"])).to_string()
+}
+
+pub fn generate(seed: u64, cases: usize, out: &mut Vec<String>) {
+    let mut rng = Rng::new(seed ^ 0x6a6f_696e_5f63_3038);
+    let stats = std::env::var("VH_STATS").is_ok();
+    let mut dist: std::collections::BTreeMap<String, usize> = Default::default();
+    out.push(format!("# case 0 seed {}", seed));
+    for l in BOUNDARY {
+        out.push(l.to_string());
+    }
+    for a in key_pool() {
+        for b in key_pool() {
+            out.push(format!("join key {} {}", a, b));
+        }
+    }
+    for case in 1..=cases {
+        out.push(format!("# case {} seed {}", case, seed));
+        let kind = rng.below(20);
+        if kind < 12 {
+            // hash join, small tables
+            let nkeys = if rng.chance(1, 4) { 2 } else if rng.chance(1, 12) { 0 } else { 1 } as usize;
+            let jt = if nkeys == 0 && rng.chance(1, 2) { "cross" } else { *rng.pick(&JTS) };
+            let p1 = rng.below(5);
+            let (lt, ln) = gen_table(&mut rng, nkeys, p1);
+            let p2 = rng.below(5);
+            let (rt, rn) = gen_table(&mut rng, nkeys, p2);
+            let keys: Vec<usize> = (0..nkeys).collect();
+            let (pk, bk) = if nkeys == 1 && rng.chance(1, 25) {
+                // malformed: a key column that does not exist
+                (if rng.chance(1, 2) { "7".to_string() } else { "0".to_string() }, "7".to_string())
+            } else {
+                (list_arg(&keys), list_arg(&keys))
+            };
+            let args = format!("{} {} {} {} {} {} {} {} {}", jt, nkeys + 1, nkeys + 1, pk, bk, gen_sizes(&mut rng, ln), gen_sizes(&mut rng, rn), lt, rt);
+            out.push(format!("join hash {}", args));
+            out.push(format!("join hash.c {}", args));
+            *dist.entry(format!("hash {} k{}", jt, nkeys)).or_default() += 1;
+        } else if kind < 17 {
+            let jt = if rng.chance(1, 5) { *rng.pick(&JTS) } else { *rng.pick(&["inner", "left", "cross"]) };
+            let p1 = rng.below(5);
+            let (lt, ln) = gen_table(&mut rng, 1, p1);
+            let p2 = rng.below(5);
+            let (rt, rn) = gen_table(&mut rng, 1, p2);
+            let cond = match rng.below(6) {
+                0 => "x".to_string(),
+                1 => "e0.5".to_string(),
+                2 => "e1.1".to_string(),
+                _ => "e0.0".to_string(),
+            };
+            let args = format!("{} 2 2 {} {} {} {} {}", jt, cond, gen_sizes(&mut rng, ln), gen_sizes(&mut rng, rn), lt, rt);
+            out.push(format!("join nl {}", args));
+            out.push(format!("join nl.c {}", args));
+            *dist.entry(format!("nl {} {}", jt, if cond == "x" { "x" } else { "e" })).or_default() += 1;
+        } else if kind < 19 {
+            // output larger than one chunk: duplicate keys on both sides, boundary chunk sizes
+            let jt = *rng.pick(&JTS);
+            let (l, r) = *rng.pick(&[(2049usize, 2usize), (2, 2049), (50, 50), (2048, 1), (1, 2048), (2047, 3), (64, 32), (1025, 2)]);
+            let lt = format!("I1,#*{};N,#;I2,#*3", l);
+            let rt = format!("I3,#;I1,#*{};N,#", r);
+            let args = format!("{} 2 2 0 0 {} {} {} {}", jt, big_sizes(&mut rng), big_sizes(&mut rng), lt, rt);
+            out.push(format!("join hash {}", args));
+            out.push(format!("join hash.c {}", args));
+            *dist.entry(format!("hash-big {}", jt)).or_default() += 1;
+        } else {
+            let jt = *rng.pick(&["inner", "left", "cross"]);
+            let (l, r) = *rng.pick(&[(2049usize, 2usize), (2, 2049), (50, 50), (2048, 1), (1, 2048), (2047, 3)]);
+            let lt = format!("I1,#*{};N,#;I2,#*3", l);
+            let rt = format!("I3,#;I1,#*{};N,#", r);
+            let cond = if jt == "cross" { "x" } else { "e0.0" };
+            let args = format!("{} 2 2 {} {} {} {} {}", jt, cond, big_sizes(&mut rng), big_sizes(&mut rng), lt, rt);
+            out.push(format!("join nl {}", args));
+            out.push(format!("join nl.c {}", args));
+            *dist.entry(format!("nl-big {}", jt)).or_default() += 1;
+        }
+    }
+    if stats {
+        for (k, v) in &dist {
+            eprintln!("join-gen {:<24} {}", k, v);
+        }
+    }
+}
+
+const BOUNDARY: &[&str] = &[
+    "join hash inner 2 2 0 0 c: c: - -",
+    "join hash.c inner 2 2 0 0 c: c: - -",
+    "join hash inner 2 2 0 0 c: c: I1,# -",
+    "join hash inner 2 2 0 0 c: c: - I1,#",
+    "join hash.c inner 2 2 0 0 c:0,1,0 c:0,0 I1,#;I2,#;I1,# I1,#;I1,#;I3,#",
+    "join hash inner 2 2 0 0 c: c: N,#;I1,# N,#;I1,#",
+    "join hash left 2 2 0 0 c: c: N,#;I1,# N,#;I1,#",
+    "join hash left 2 2 0 0 c: c: N,#;I1,# -",
+    "join hash.c left 2 2 0 0 c: c:0 N,#;I1,# -",
+    "join hash full 2 2 0 0 c:1 c:1 N,#;I1,#;I5,# N,#;I1,#;I7,#",
+    "join hash right 2 2 0 0 c:1 c:1 N,#;I1,#;I5,# N,#;I1,#;I7,#",
+    "join hash semi 2 2 0 0 c:1 c:1 N,#;I1,#;I5,# N,#;I1,#*2;I7,#",
+    "join hash anti 2 2 0 0 c:1 c:1 N,#;I1,#;I5,# N,#;I1,#*2;I7,#",
+    "join hash cross 2 2 - - c:1 c:1 N,#;I1,#;I5,# N,#;I1,#",
+    "join hash inner 3 3 0,1 0,1 c: c: N,I1,#;I1,I1,# N,I1,#;I1,I1,#",
+    "join hash inner 2 2 0 0 c: c: I1,# F3ff0000000000000,#",
+    "join hash inner 2 2 0 0 c: c: I1,# F0000000000000001,#",
+    "join hash inner 2 2 0 0 c: c: F7ff8000000000000,# F7ff8000000000000,#",
+    "join hash inner 2 2 0 0 c: c: F0000000000000000,# F8000000000000000,#",
+    "join hash inner 2 2 7 7 c: c: I1,# I1,#",
+    "join hash inner 2 2 7 7 c: c: - -",
+    "join hash.c inner 2 2 0 0 c:2048 c: I1,#*2049 I1,#*2",
+    "join hash.c inner 2 2 0 0 c: c: I1,#*2 I1,#*1024",
+    "join hash.c semi 2 2 0 0 c: c: I1,#*2049 I1,#*2",
+    "join hash.c left 2 2 0 0 c: c: I9,#*2049 I1,#*2",
+    "join hash.c full 2 2 0 0 c: c:2047 I9,#*3 I1,#*2049",
+    "join nl inner 2 2 e0.0 c: c: N,#;I1,# N,#;I1,#",
+    "join nl left 2 2 e0.0 c: c: I1,#;I2,# -",
+    "join nl.c left 2 2 e0.0 c: c:0 I1,#;I2,# -",
+    "join nl cross 2 2 x c:1 c:1 I1,#;I2,# I5,#;I6,#",
+    "join nl inner 2 2 e0.0 c: c: F7ff8000000000000,#;F0000000000000000,# F7ff8000000000000,#;F8000000000000000,#",
+    "join nl.c inner 2 2 e0.0 c: c: I1,#*2 I1,#*1024",
+    "join nl.c left 2 2 e0.0 c: c: I9,#*2049;I1,# I1,#*2",
+    "join nl anti 2 2 e0.0 c: c: I1,#;I2,# -",
+    "join nl semi 2 2 e0.0 c: c: I1,#;I2,# I1,#*2",
+];
